@@ -111,6 +111,14 @@ def _sl(text, p):
     return text[p[1] : p[2]]
 
 
+def _upper(text, p) -> int:
+    """The upper bound of {n}, {,n}, {m,n}: pest's consumer reports 'cannot repeat 0 times' for 0."""
+    v = _num(text, p)
+    if v == 0:
+        raise DenoteReject("cannot repeat 0 times")
+    return v
+
+
 class DenoteReject(Exception):
     """The text matches the meta-grammar but pest's consumer rejects it (a validation-level error)."""
 
@@ -203,15 +211,15 @@ def d_term(text, p):  # noqa: PLR0912
         elif n == "repeat_once_operator":
             node = ("plus", node)
         elif n == "repeat_exact":
-            v = _num(text, _first(k, "number"))
+            v = _upper(text, _first(k, "number"))
             node = ("rep", node, v, v)
         elif n == "repeat_min":
             node = ("rep", node, _num(text, _first(k, "number")), None)
         elif n == "repeat_max":
-            node = ("rep", node, None, _num(text, _first(k, "number")))
+            node = ("rep", node, None, _upper(text, _first(k, "number")))
         elif n == "repeat_min_max":
             nums = [x for x in k[4] if x[0] == "number"]
-            node = ("rep", node, _num(text, nums[0]), _num(text, nums[1]))
+            node = ("rep", node, _num(text, nums[0]), _upper(text, nums[1]))
         else:
             raise DenoteUnsupported(n)
     for pre in reversed(prefixes):
